@@ -43,6 +43,23 @@ def evaluate(mod, lines, wd, tag, env=None):
         impl_lines = lines
     impl = run_sharded(HARNESS_BIN, impl_lines, wd, tag + "-impl", timeout=mod_timeout(mod), env=e,
                        shards=getattr(mod, "IMPL_SHARDS", NPROC))
+    if getattr(mod, "RERUN_AFTER_DEATH", False):
+        # a case that kills the executor takes the rest of its shard with it: the first dead case is
+        # the culprit (ABORT), the ones behind it are run again
+        rounds = 0
+        while rounds < 40 and any(x.startswith("EXECUTOR-DIED") for x in impl):
+            rounds += 1
+            dead = [i for i, x in enumerate(impl) if x.startswith("EXECUTOR-DIED")]
+            firsts = [i for i in dead if i == 0 or not impl[i - 1].startswith("EXECUTOR-DIED")]
+            for i in firsts:
+                impl[i] = "ABORT " + impl[i]
+            rest = [i for i in dead if i not in firsts]
+            if not rest:
+                break
+            again = run_sharded(HARNESS_BIN, [impl_lines[i] for i in rest], wd, tag + "-impl-r%d" % rounds,
+                                timeout=mod_timeout(mod), env=e, shards=getattr(mod, "IMPL_SHARDS", NPROC))
+            for i, x in zip(rest, again):
+                impl[i] = x
     if hasattr(mod, "oracle"):
         spec = []
         for c, o in zip(lines, impl):
@@ -113,8 +130,10 @@ def run_property(mod, tier, seed, replay=None):
         if mo == "U" or mo.startswith("SKIP") or im.startswith("SKIP"):
             skipped += 1
             # outside the modelled domain: robustness only (no panic, oracle may still judge)
-            if im.startswith("PANIC") or im.startswith("EXECUTOR-DIED"):
+            if im.startswith("PANIC") or im.startswith("EXECUTOR-DIED") or im.startswith("ABORT"):
                 failures.append((i, "robustness: " + im[:200]))
+            elif getattr(mod, "ORACLE_ON_SKIP", False) and sp.startswith("FAIL"):
+                failures.append((i, sp))
             continue
         if mod.project(im) != mod.project(mo):
             disagreements.append(i)
